@@ -125,7 +125,18 @@ def run_chop(L, kw, length_ratio=1.0, via_grading=True):
                     return dict(status="ok", n=n, E=E, results=dict(chop.results), bad="length ratio changed")
             else:
                 n, E = chop.calculate(L * length_ratio)
-            return dict(status="ok", n=n, E=E, results=dict(chop.results))
+            res0 = dict(chop.results)
+            # a copy made by copy_preserving() is a chop of its own: reversing IT leaves the chop it was made from alone
+            try:
+                cp = chop.copy_preserving(False)
+                cp.invert()
+                n2, E2 = chop.calculate(L * length_ratio)
+            except Exception as e:  # noqa: BLE001
+                return dict(status="ok", n=n, E=E, results=res0, bad="copy_preserving().invert() raised %s: %s" % (type(e).__name__, str(e)[:100]))
+            if n2 != n or E2 != E:
+                return dict(status="ok", n=n, E=E, results=res0,
+                            bad="after reversing a copy made by copy_preserving() the chop itself returns (%r, %r) instead of (%r, %r)" % (n2, E2, n, E))
+            return dict(status="ok", n=n, E=E, results=res0)
         except GenError:
             raise
         except Exception as e:
@@ -878,11 +889,17 @@ def oracle_grading_inverted(L, chops):
         # by the input, so that replays agree) it has been looked at before, while the grading was still growing
         import hashlib
         peek = int(hashlib.sha1(json.dumps([L, [[lr, sorted(kw.items())] for lr, kw in chops]]).encode()).hexdigest()[:4], 16) % 2 == 1
+        prev = None
         for lr, kw in chops:
-            g.add_chop(Chop(length_ratio=lr, **kw))
+            # equal parts described by ONE Chop object added once per part (what a loop over a list holding it does)
+            ch = prev[1] if (prev is not None and prev[0] == (lr, sorted(kw.items()))) else Chop(length_ratio=lr, **kw)
+            prev = ((lr, sorted(kw.items())), ch)
+            g.add_chop(ch)
             if peek:
                 _ = g.inverted.specification
         spec = [list(x) for x in g.specification]
+        if len(spec) != len(chops):
+            return spec, [], ("section-dropped", "%d chops added, the grading has %d sections" % (len(chops), len(spec)))
         inv = g.inverted
         ispec = [list(x) for x in inv.specification]
         back = [list(x) for x in inv.inverted.specification]
@@ -1225,7 +1242,11 @@ class C03(Prop):
             lrs = [1.0 / k] * k if rng.random() < 0.5 else [x / sum(range(1, k + 1)) for x in range(1, k + 1)]
             chops = []
             uniform = rng.random() < 0.2   # every section uniform (expansion exactly 1): inversion changes the ORDER only
+            same = len(set(lrs)) == 1 and k > 1 and rng.random() < 0.4   # equal parts, one and the same chop for each
             for lr in lrs:
+                if same and chops:
+                    chops.append((lr, dict(chops[0][1])))
+                    continue
                 n = draw_n(rng)
                 if uniform or rng.random() < 0.25:
                     chops.append((lr, {"count": n}))
